@@ -3,6 +3,7 @@ package gen
 import (
 	"fmt"
 	"math/big"
+	"sort"
 
 	netdel "github.com/Oneledger/protocol/action/network_delegation"
 	rew "github.com/Oneledger/protocol/action/rewards"
@@ -15,7 +16,8 @@ import (
 // Delegation: ADD_NETWORK_DELEGATE, NETWORK_UNDELEGATE, reward withdraw and
 // reinvest by several delegators, several operations per block and delegator.
 type Delegation struct {
-	n int
+	Drain bool // every delegator leaves the pool while a reward withdrawal is pending
+	n     int
 }
 
 func (d *Delegation) Name() string { return "delegation" }
@@ -52,7 +54,48 @@ func (d *Delegation) Plan(c *Ctx) []hist.TxSpec {
 		sp.Meta = map[string]string{"delegator": a.Addr.String(), "amount": amt}
 		out = append(out, sp)
 	}
+	if d.Drain {
+		// a reward withdrawal is pending while every delegator takes everything out: the delegation pool is
+		// empty at the block in which the withdrawal matures
+		switch d.n {
+		case 1:
+			del(us[0], OLT(2000000), "delegate")
+			del(us[1], OLT(500000), "delegate")
+		case 4, 16, 28:
+			for _, u := range []*world.Account{us[0], us[1]} {
+				if b := DelegRewardBalance(c.S, u); b.Sign() > 0 {
+					wd(u, new(big.Int).Div(b, big.NewInt(2)).String(), "withdraw half the accrued rewards (everybody leaves the pool before it matures)")
+				}
+			}
+		case 5, 17, 29:
+			for _, u := range []*world.Account{us[0], us[1]} {
+				if act := ActiveDeleg(c.S, u); act.Sign() > 0 {
+					undel(u, act.String(), "undelegate everything")
+				}
+			}
+		case 11, 23, 35:
+			del(us[0], OLT(1000000), "delegate again")
+			del(us[1], OLT(300000), "delegate again")
+		}
+		return out
+	}
 	switch d.n {
+	case 3:
+		del(us[2], OLT(90000), "delegate")
+		del(us[3], OLT(80000), "delegate")
+		return out
+	case 6:
+		// one zero-amount undelegation next to real ones in the same block; the zero one comes from the
+		// delegator whose address sorts first, so that every other pending entry of the block sorts after it
+		ds := []*world.Account{us[0], us[1], us[2], us[3]}
+		sort.Slice(ds, func(i, j int) bool { return ds[i].Addr.String() < ds[j].Addr.String() })
+		undel(ds[0], "0", "undelegate nothing (amount 0)")
+		for _, u := range ds[1:] {
+			if act := ActiveDeleg(c.S, u); act.Sign() > 0 {
+				undel(u, OLT(25), "undelegate in the block of somebody's zero-amount undelegation")
+			}
+		}
+		return out
 	case 1:
 		del(us[0], OLT(2000000), "delegate")
 		del(us[1], OLT(500000), "delegate")
